@@ -638,13 +638,16 @@ TxEnd(m) ==
 (* ------------------------------- autonomous run (model checking) ------------------------ *)
 NoObs == [top |-> UNK, to |-> UNK, code |-> << >>, ok |-> TRUE, gasUsed |-> 0, out |-> << >>, outLen |-> 0]
 (* Without observations creations and precompiles cannot be executed: the machine stops.     *)
-RunStep(m) ==
+(* RunStepObs takes a fixed observation instead: with ob.to given, creations run (their init  *)
+(* code is ob.code and every value the specification cannot compute is the token ob.top).      *)
+RunStepObs(m, ob) ==
   IF m.ph = "settle" THEN TxEnd(m)
   ELSE LET f == Top(m) IN
-       CASE f.st = "pending" -> IF IsCreateKind(f.kind) THEN [m EXCEPT !.ph = "stuck"] ELSE Enter(m, NoObs)
-         [] f.st = "run"     -> Exec(m, NoObs)
-         [] f.st = "done"    -> Exit(m, NoObs)
+       CASE f.st = "pending" -> IF IsCreateKind(f.kind) /\ ob.to = UNK THEN [m EXCEPT !.ph = "stuck"] ELSE Enter(m, ob)
+         [] f.st = "run"     -> Exec(m, ob)
+         [] f.st = "done"    -> Exit(m, ob)
          [] OTHER            -> [m EXCEPT !.ph = "stuck"]
+RunStep(m) == RunStepObs(m, NoObs)
 Running(m) == m.ph \in {"run", "settle"}
 
 (* total gas held by the frames: never grows (call stipends are the only gas created)        *)
